@@ -102,6 +102,9 @@ def run(ck):
         reqs.append(("rule", "D x;%s(x)" % u[0], "x", "%s(x)" % u[0]))
         reqs.append(("rule", "D x;%s(x*y+1)" % u[0], "x", "%s(x*y+1)" % u[0]))
         reqs.append(("rule", "D x;%s(y)+x" % u[0], "x", "%s(y)+x" % u[0]))
+        # inner derivatives that are constants 0, 1, 2: the three outcomes of applyChainRule
+        reqs.append(("rule", "D x;%s(0*x+0.5)" % u[0], "x", "%s(0*x+0.5)" % u[0]))
+        reqs.append(("rule", "D x;%s(2*x)" % u[0], "x", "%s(2*x)" % u[0]))
     for b in tab["binary"]:
         reqs.append(("rule", "D x;%s(x,y)" % b[0], "x", "%s(x,y)" % b[0]))
     for n in list(range(-18, 19)) + [33, -33]:
